@@ -27,7 +27,12 @@ RULE = ("exhaustive: every binary image on 1-d grids of 1..6 cells, 3x3 and 2x2x
         "successive overlap removals), lines winding around a periodic axis, on grids up to 9x9 / 5x5x4 and elongated ones (1..3 x up to 14 cells, both "
         "orders) with 1-cell and 2-cell axes, dyadic spacings, origins of every kind (zero, centred, positive, entirely negative); every image is also "
         "handed over once in a non-bool dtype (uint8, int64, float32, float64: the result must be bitwise the one of the bool mask) and must not be "
-        "mutated; non-trivial = at least two labelled clusters are joined across a periodic boundary or >= 2 components; distinct by (grid, image)")
+        "mutated; non-trivial = at least two labelled clusters are joined across a periodic boundary or >= 2 components; distinct by (grid, image); "
+        "sequences (state kept between calls): per grid family groups of two inputs that share shape, dtype and number of image cells / the image bytes "
+        "but differ in the arrangement or in spacing / periodicity / origin / grid class, both locators on REUSED grid / field / mask objects (same call "
+        "twice, interleaved, after calls that raise, series of up to 14 images on one grid object), compared bitwise with fresh objects evaluated first "
+        "in a fresh interpreter; arguments and the grid's cached arrays compared with a fresh equal grid after every call; all outputs kept alive, checked "
+        "for shared memory, one of them modified in place")
 
 # Inputs that make the unchanged /repo misbehave and are waiting for a decision of the lead: run and reported in the
 # evidence notes, NOT judged (notes/audit_task.md).
@@ -391,8 +396,10 @@ def run_sym_streams(ctx, rng, ok, fails, known_hits):
                 known_hits.setdefault(cls, {"what": desc, "input": inp})
             else:
                 fails.append({"what": f"{cls}: {desc}", "input": inp})
-        lits.append(cyl_case_lit(grid, lab_pad, lab, cands, out, M))
-        meta.append(inp)
+        lit = lc.safe_lit(lambda: cyl_case_lit(grid, lab_pad, lab, cands, out, M), fails, inp)
+        if lit is not None:
+            lits.append(lit)
+            meta.append(inp)
     header = ("From Coq Require Import QArith ZArith List.\nImport ListNotations.\n"
               "From PD Require Import Model.Grid Model.Locate Model.LocateSym Model.LocateCases.\nLocal Open Scope Q_scope.\n")
     if ok:
@@ -430,14 +437,164 @@ def run_sym_streams(ctx, rng, ok, fails, known_hits):
                 fails.append({"what": "droplet reported although no component touches the origin", "input": inp})
         elif len(em) != 1 or abs(em[0].radius - (rlo + n_in * dr)) > 1e-12 * (1 + rhi) or np.any(em[0].position != 0):
             fails.append({"what": f"expected one droplet of radius {rlo + n_in * dr} at the origin, got {[(list(d.position), d.radius) for d in em]}", "input": inp})
-        out = f"(Some {vlib.qlit(em[0].radius)})" if len(em) else "None"
-        lits.append("{| rd_lo := %s; rd_dr := %s; rd_mask := %s; rd_out := %s |}"
-                    % (vlib.qlit(rlo), vlib.qlit(dr), vlib.listlit(mask.tolist(), vlib.blit), out))
-        meta.append(inp)
+        lit = lc.safe_lit(lambda: "{| rd_lo := %s; rd_dr := %s; rd_mask := %s; rd_out := %s |}"
+                          % (vlib.qlit(rlo), vlib.qlit(dr), vlib.listlit(mask.tolist(), vlib.blit),
+                             f"(Some {vlib.qlit(em[0].radius)})" if len(em) else "None"), fails, inp)
+        if lit is not None:
+            lits.append(lit)
+            meta.append(inp)
     if ok:
         bad = vlib.run_cases(ctx, "radial", header, lits, "rad_agree", shard=400)
         for b in bad[:3]:
             ctx.broken.append(f"correspondence locate_droplets_in_mask (radial): model and implementation differ on {meta[b]}")
+
+
+# ---- input dimension 8: state kept between calls (machinery in locate_common.py) ----------------------------------
+SEQ_KINDS = {
+    "cartesian": ["same grid, permuted image", "swapped spacings", "same volume, other spacings", "periodicity mask differs", "origin differs"],
+    "cylindrical": ["same grid, image rolled along z", "dr and dz swapped", "periodic_z differs", "z origin differs", "dz differs"],
+    "radial": ["same grid, other image with as many cells", "PolarSymGrid vs SphericalSymGrid", "inner radius differs", "dr differs"],
+}
+
+
+def _other_image(rng, m):
+    """an image with the same shape and the same number of image cells, but different"""
+    for _ in range(20):
+        ax = rng.randrange(m.ndim)
+        m2 = np.roll(np.flip(m, axis=ax) if rng.random() < 0.5 else m, rng.randrange(1, max(2, m.shape[ax])), axis=ax)
+        if not np.array_equal(m2, m):
+            return m2
+    flat = m.ravel().copy()
+    i, j = int(np.argmax(flat)), int(np.argmin(flat))
+    flat[i], flat[j] = flat[j], flat[i]
+    return flat.reshape(m.shape)
+
+
+def seq_groups(ctx, rng):
+    """collision groups of mask inputs for the three grid families; distinct shapes per family, so that only the members of
+    one group can be confused with each other"""
+    groups = []
+    n_per_family = ctx.scale(10, 30)
+    tries = {"cartesian": 0, "cylindrical": 0, "radial": 0}   # hard bound on every rejection loop below
+
+    def more(fam):
+        tries[fam] += 1
+        return tries[fam] <= 50 * n_per_family and len([g for g in groups if g["family"] == fam]) < n_per_family
+
+    def member(fam, bounds, shape, per, mask):
+        return {"family": fam, "bounds": [list(map(float, b)) for b in bounds], "shape": [int(n) for n in shape],
+                "periodic": [bool(p) for p in per], "mask": np.asarray(mask).astype(int).ravel().tolist()}
+
+    def nonempty_mask(shape, per, axis_rows=None):
+        for _ in range(50):
+            m, _k = random_mask(rng, shape, rng.choice(["noise", "walk", "pieces"]), per)
+            if axis_rows is not None:
+                m[0, rng.randrange(shape[1])] = True     # something on the symmetry axis / at the origin
+            if m.any() and not m.all():
+                return m
+        m = np.zeros(shape, bool)
+        m.flat[0] = True
+        return m
+
+    # ---- Cartesian
+    shapes = set()
+    while more("cartesian"):
+        kind = SEQ_KINDS["cartesian"][len(groups) % 5]
+        d = rng.choice([1, 2, 2, 3]) if kind in ("same grid, permuted image", "periodicity mask differs", "origin differs") else rng.choice([2, 2, 3])
+        shape = [rng.randrange(3, {1: 14, 2: 10, 3: 6}[d])] * d if kind == "swapped spacings" else \
+            [rng.randrange(2, {1: 14, 2: 10, 3: 6}[d]) for _ in range(d)]
+        if tuple(shape) in shapes:
+            continue
+        shapes.add(tuple(shape))
+        per = [rng.random() < 0.6 for _ in range(d)]
+        h = [rng.choice([0.25, 0.5, 1.0, 1.5, 2.0]) for _ in range(d)]
+        lo = [lc.axis_origin(rng, n, hh)[0] for n, hh in zip(shape, h)]
+        m0 = nonempty_mask(tuple(shape), per)
+        h1, lo1, per1, m1 = list(h), list(lo), list(per), m0
+        if kind == "same grid, permuted image":
+            m1 = _other_image(rng, m0)
+        elif kind == "swapped spacings":
+            if len(set(h)) == 1:
+                h[0] *= 2
+            h1 = h[::-1] if h[::-1] != h else h[1:] + h[:1]
+        elif kind == "same volume, other spacings":
+            h1 = [2 * h[0], h[1] / 2] + h[2:]
+        elif kind == "periodicity mask differs":
+            ax = rng.randrange(d)
+            per1[ax] = not per1[ax]
+        else:
+            lo1 = [x + rng.choice([-3.25, 0.5, 7.75]) for x in lo]
+        mk = lambda hh, ll, pp, mm: member("cartesian", [(a, a + n * b) for a, n, b in zip(ll, shape, hh)], shape, pp, mm)
+        mem = [mk(h, lo, per, m0), mk(h1, lo1, per1, m1)]
+        n_extra = 12 if not any(g["family"] == "cartesian" for g in groups) else 2   # one long series on a reused grid per family
+        mem += [mk(h, lo, per, nonempty_mask(tuple(shape), per)) for _ in range(n_extra)]
+        groups.append({"kind": kind, "family": "cartesian", "members": mem})
+    # ---- cylindrical (dz != 1 and dr != 1 on purpose: a factor applied twice must show)
+    shapes = set()
+    while more("cylindrical"):
+        kind = SEQ_KINDS["cylindrical"][len(groups) % 5]
+        nr, nz = rng.randrange(1, 7), rng.randrange(2, 13)
+        if (nr, nz) in shapes:
+            continue
+        shapes.add((nr, nz))
+        dr, dz = rng.choice([0.5, 1.5, 2.0]), rng.choice([0.25, 0.5, 2.0, 3.0])
+        if dr == dz:
+            dz = 0.75
+        zlo, per = lc.axis_origin(rng, nz, dz)[0], rng.random() < 0.5
+        m0 = nonempty_mask((nr, nz), [False, per], axis_rows=True)
+        dr1, dz1, zlo1, per1, m1 = dr, dz, zlo, per, m0
+        if kind == "same grid, image rolled along z":
+            m1 = np.roll(m0, rng.randrange(1, nz), axis=1)
+            if np.array_equal(m1, m0):
+                m1 = _other_image(rng, m0)
+        elif kind == "dr and dz swapped":
+            dr1, dz1 = dz, dr
+        elif kind == "periodic_z differs":
+            per1 = not per
+        elif kind == "z origin differs":
+            zlo1 = zlo + rng.choice([-2.5, 1.25, 6.0])
+        else:
+            dz1 = dz * rng.choice([0.5, 2.0, 3.0])
+        mk = lambda a, b, z, pp, mm: member("cylindrical", [(0.0, nr * a), (z, z + nz * b)], (nr, nz), [False, pp], mm)
+        mem = [mk(dr, dz, zlo, per, m0), mk(dr1, dz1, zlo1, per1, m1)]
+        n_extra = 12 if not any(g["family"] == "cylindrical" for g in groups) else 2
+        mem += [mk(dr, dz, zlo, per, nonempty_mask((nr, nz), [False, per], axis_rows=True)) for _ in range(n_extra)]
+        groups.append({"kind": kind, "family": "cylindrical", "members": mem})
+    # ---- polar / spherical
+    sizes = set()
+    while more("radial"):
+        kind = SEQ_KINDS["radial"][len(groups) % 4]
+        n = rng.randrange(2, 100)   # (the range must offer more sizes than groups are asked for)
+        if n in sizes:
+            continue
+        sizes.add(n)
+        cls = rng.choice(["PolarSymGrid", "SphericalSymGrid"])
+        dr, rlo = rng.choice([0.25, 0.5, 1.5, 2.0]), rng.choice([0.0, 0.0, 0.5, 2.0])
+
+        def rmask():
+            m = np.array([rng.random() < 0.6 for _ in range(n)], bool)
+            m[: rng.randrange(1, n)] = True
+            m[rng.randrange(1, n):] &= rng.random() < 0.7
+            return m
+        m0 = rmask()
+        cls1, dr1, rlo1, m1 = cls, dr, rlo, m0
+        if kind == "same grid, other image with as many cells":
+            k = int(m0.sum())
+            m1 = np.zeros(n, bool)
+            m1[:k] = True
+            if np.array_equal(m1, m0):
+                m1 = np.roll(m0, 1)
+        elif kind == "PolarSymGrid vs SphericalSymGrid":
+            cls1 = "SphericalSymGrid" if cls == "PolarSymGrid" else "PolarSymGrid"
+        elif kind == "inner radius differs":
+            rlo1 = rlo + rng.choice([0.25, 1.0, 3.5])
+        else:
+            dr1 = dr * rng.choice([0.5, 2.0, 3.0])
+        mk = lambda c, a, r0, mm: member(c, [(r0, r0 + n * a)], (n,), [False], mm)
+        n_extra = 12 if not any(g["family"] == "radial" for g in groups) else 2
+        mem = [mk(cls, dr, rlo, m0), mk(cls1, dr1, rlo1, m1)] + [mk(cls, dr, rlo, rmask()) for _ in range(n_extra)]
+        groups.append({"kind": kind, "family": "radial", "members": mem})
+    return groups
 
 
 def run_suspected(ctx, rng):
@@ -480,6 +637,18 @@ def check(ctx: vlib.Ctx) -> int:
     rng = random.Random(ctx.seed)
     ok = vlib.prove(ctx, ["Proofs/C02.vo", "Proofs/LocateCart.vo", "Proofs/LabelClients.vo", "Proofs/LabelUnique.vo", "Model/LocateCases.vo"], gens=[])
     ctx.tie.append("hand-written model (Model/MergeLoop.v, Model/Locate.v) + correspondence on locate_droplets_in_mask; ndimage.label as checked oracle")
+    import time
+    t_stage = [ctx.t0]
+    stages = ctx.extra.setdefault("stage_wall_s", {})
+
+    def stage(name):
+        t_stage.append(time.time())
+        stages[name] = round(t_stage[-1] - t_stage[-2], 2)
+    stage("proofs")
+    seq_rng = random.Random(ctx.seed * 7919 + 8)   # own stream (derived from ctx.seed): the other streams stay as they were
+    groups = seq_groups(ctx, seq_rng)
+    seq_procs = lc.seq_start_references(groups)    # two fresh interpreters, running while the other streams are checked
+    stage("sequence groups generated, reference interpreters started")
     lits, meta, fails = [], [], []
     nspec_bad = 0
     for case_no, (grid, mask, kind, okinds) in enumerate(gen_cases(ctx, rng)):
@@ -523,8 +692,10 @@ def check(ctx: vlib.Ctx) -> int:
                 E = np.sqrt(((P[:, None, :] - P[None, :, :]) ** 2).sum(-1)) - np.add.outer(rad, rad)
                 ctx.count("selection_depends_on_periodic_metric" + (" (mixed periodicity)" if not all(per) else " (fully periodic)"),
                           lc.simulate_remove_overlapping(E, rad) != list(rec["out"]))
-            lits.append(lc.loc_case_lit(grid, labels, rec))
-            meta.append(inp)
+            lit = lc.safe_lit(lambda: lc.loc_case_lit(grid, labels, rec), fails, inp)
+            if lit is not None:
+                lits.append(lit)
+                meta.append(inp)
         elif n != 0 or len(em) != 0:
             fails.append({"what": "no candidates recorded although clusters exist", "input": inp})
     ctx.sample(meta[len(meta) // 3] if meta else {})
@@ -535,9 +706,18 @@ def check(ctx: vlib.Ctx) -> int:
         bad = vlib.run_cases(ctx, "cart", header, lits, "loc_agree", shard=250)
         for b in bad[:3]:
             ctx.broken.append(f"correspondence locate_droplets_in_mask (Cartesian): model and implementation differ on {meta[b]}")
+    stage("Cartesian stream incl. in-Coq correspondence")
     known_hits = {}
     run_sym_streams(ctx, rng, ok, fails, known_hits)
     run_suspected(ctx, rng)
+    stage("cylindrical + radial streams incl. in-Coq correspondence")
+    seq_fails = lc.sequence_oracle(ctx, seq_rng, groups, seq_procs)
+    ctx.count("sequence_failures", len(seq_fails))
+    stage("sequence stream (collect references, schedules on reused objects)")
+    fails = seq_fails[:2] + fails + seq_fails[2:]
+    ctx.notes.append("sequence stream (input dimension 8): both locators on reused objects; reference = the same input with fresh objects, evaluated "
+                     "first in one of two fresh interpreters (the other one evaluates it after the input sharing its aggregates; a difference between "
+                     "the two is a failure as well); Python only (no translator covers the locators: the models are hand-written)")
     ctx.notes.append("second calls (the same 0/1 image as uint8 / int64 / float32 / float64 data) are compared bitwise with the call on the bool mask in "
                      "Python only; the bool call is the one that enters the in-Coq correspondence. All new image kinds (bars, winding, discs) and grid "
                      "kinds (1-cell axes, elongated boxes, every origin kind, narrow / flat cylinders) go through the in-Coq correspondence.")
@@ -557,6 +737,10 @@ def replay(path: str) -> int:
     obj = json.load(open(path))
     print(json.dumps(obj, indent=1)[:1500])
     inp = obj.get("input", {})
+    if inp.get("sequence"):
+        f = lc.replay_sequence(inp)
+        print("sequence oracle on the current tree:", f or "holds")
+        return 1 if f else 0
     if "mask" not in inp:
         return 0
     fam = inp.get("family", "cartesian")
